@@ -126,10 +126,10 @@ theorem node?_of_mem (g : Grp) (hn : (g.members.map (·.index)).Nodup) (m : Memb
 
 /-- **Admission implies membership.** A partial that passes `ProcessPartialBeacon` carries the index of a member of the
 receiver's CURRENT group (not the receiver itself) and was made with a share of the receiver's current epoch. -/
-theorem c03_admitted_is_member (self : Nat) (d : Node) (m : Msg) (h : d.admit self m = .admitted) :
+theorem c03_admitted_is_member (self : Nat) (d : Node) (m : Msg) (h : d.admission self m = .admitted) :
     (∃ mem ∈ d.vault.grp.members, mem.index = m.idx ∧ mem.node ≠ self) ∧ m.epoch = d.vault.epoch ∧ m.idx ≠ d.vault.index ∧
     d.head < m.round ∧ m.round ≤ d.clock + 1 := by
-  unfold Node.admit at h
+  unfold Node.admission at h
   simp only [Gen.ppbFuture, Gen.ppbPast, decide_eq_true_eq] at h
   by_cases h1 : d.clock + 1 < m.round
   · simp [h1] at h
@@ -151,12 +151,12 @@ theorem c03_admitted_is_member (self : Nat) (d : Node) (m : Msg) (h : d.admit se
 
 /-- a node's state changes on a received packet only if the packet was admitted -/
 theorem recvStep_cases (B self : Nat) (reach : Bool) (d : Node) (m : Msg) :
-    (d.recvStep B self reach m = d ∧ ¬ (d.up = true ∧ reach = true ∧ d.admit self m = .admitted)) ∨
-    (d.up = true ∧ reach = true ∧ d.admit self m = .admitted ∧ d.recvStep B self reach m = d.aggregate B m.idx m.epoch m.round) := by
+    (d.recvStep B self reach m = d ∧ ¬ (d.up = true ∧ reach = true ∧ d.admission self m = .admitted)) ∨
+    (d.up = true ∧ reach = true ∧ d.admission self m = .admitted ∧ d.recvStep B self reach m = d.aggregate B m.idx m.epoch m.round) := by
   unfold Node.recvStep
   by_cases hu : d.up = true
   · by_cases hr : reach = true
-    · by_cases ha : d.admit self m = .admitted
+    · by_cases ha : d.admission self m = .admitted
       · right; simp [hu, hr, ha]
       · left
         refine ⟨?_, fun h => ha h.2.2⟩
@@ -891,10 +891,10 @@ theorem foldl_recv (j : Nat) : ∀ (l : List Msg) (s : State),
 def Adm (V : Vault) (h self : Nat) (m : Msg) : Prop :=
   m.round = h + 1 ∧ (∃ mem, V.grp.node? m.idx = some mem ∧ mem.node ≠ self) ∧ m.epoch = V.epoch ∧ m.idx ≠ V.index
 
-theorem admit_of_adm {V : Vault} {h c self : Nat} {d : Node} {m : Msg} (hh : d.head = h) (hv : d.vault = V) (hcl : d.clock = c)
-    (hc : h < c) (ha : Adm V h self m) : d.admit self m = .admitted := by
+theorem admission_of_adm {V : Vault} {h c self : Nat} {d : Node} {m : Msg} (hh : d.head = h) (hv : d.vault = V) (hcl : d.clock = c)
+    (hc : h < c) (ha : Adm V h self m) : d.admission self m = .admitted := by
   obtain ⟨hr, ⟨mem, hm, hne⟩, he, hi⟩ := ha
-  unfold Node.admit
+  unfold Node.admission
   simp only [Gen.ppbFuture, Gen.ppbPast, hh, hv, hcl, hr, hm]
   have h1 : ¬ (c + 1 < h + 1) := by omega
   have h2 : ¬ (h + 1 ≤ h) := by omega
@@ -999,7 +999,7 @@ theorem prog_recvStep {B h c self : Nat} {V : Vault} {S : Nat → Prop} {d : Nod
       intro k hk
       rcases hk with hk | ⟨hr, hadm, _⟩
       · exact h6 k hk
-      · exfalso; exact hne ⟨hu, hr, admit_of_adm h1 h2 hcl hc hadm⟩
+      · exfalso; exact hne ⟨hu, hr, admission_of_adm h1 h2 hcl hc hadm⟩
   · rw [he]
     obtain ⟨_, hep, _, hlow, _⟩ := c03_admitted_is_member self d m ha
     have hge := hp.head_ge
@@ -1351,8 +1351,8 @@ def exNode : Node := { up := true, head := 4, clock := 5, vault := ⟨exGap, 1, 
 
 /-- the partial of member index 2 made with a share of epoch 1 is admitted; the same index with a share of epoch 0, the
 missing index 1 and the own index are not -/
-example : exNode.admit 0 ⟨1, 2, 1, 5, 0⟩ = .admitted ∧ exNode.admit 0 ⟨1, 2, 0, 5, 0⟩ = .invalid ∧
-    exNode.admit 0 ⟨1, 1, 1, 5, 0⟩ = .notMember ∧ exNode.admit 0 ⟨1, 0, 1, 5, 0⟩ = .ownAddress := by decide
+example : exNode.admission 0 ⟨1, 2, 1, 5, 0⟩ = .admitted ∧ exNode.admission 0 ⟨1, 2, 0, 5, 0⟩ = .invalid ∧
+    exNode.admission 0 ⟨1, 1, 1, 5, 0⟩ = .notMember ∧ exNode.admission 0 ⟨1, 0, 1, 5, 0⟩ = .ownAddress := by decide
 
 example : (exNode.recvStep 8 0 true ⟨1, 2, 1, 5, 0⟩).held 5 2 = some 1 ∧ (exNode.recvStep 8 0 true ⟨1, 2, 0, 5, 0⟩).held 5 2 = none := by
   decide
